@@ -1137,6 +1137,166 @@ func runC15TypedNil(c *CaseCtx, r *rand.Rand) (res CaseResult) {
 	return res
 }
 
+// runC15Partial: what a value set and a built function do at the edges of
+// their contract. (a) A FRESH built function whose callback leaves some
+// outputs unset delivers, in its first call, the zero value for those and the
+// callback's values for the others -- to the caller and to a consumer. (b)
+// Looking up a name or type the set does not hold yields nil. (c) FromResult
+// of an error result returns that error and leaves the set as it was.
+func runC15Partial(c *CaseCtx, r *rand.Rand) (res CaseResult) {
+	res.NonTrivial = true
+	res.obs("family.partial-outputs", 1)
+	det := map[string]interface{}{}
+	defer func() {
+		if p := recover(); p != nil {
+			res.violate("C06", "panic/valueset-"+crashKey(fmt.Sprint(p)), fmt.Sprintf("panicked: %v", p), det)
+		}
+	}()
+	// outputs: pairwise distinct types out of T3..T5 plus an interface-typed one
+	outL := []Label{{Name: "a", Type: 3}, {Type: 4}}
+	if r.Intn(2) == 0 {
+		outL = append(outL, Label{Name: "c", Type: 5, Sub: "s"})
+	}
+	iface := r.Intn(2) == 0
+	vals := labelsToValues(outL, nil, false)
+	if iface {
+		vals = append(vals, am.Value{Name: "warn", Type: errT})
+	}
+	setMask := r.Intn(1 << uint(len(vals)))
+	res.Key = fmt.Sprintf("partial-outputs n=%d mask=%d iface=%v", len(vals), setMask, iface)
+	det["case"] = res.Key
+	out, err := am.NewValueSet(vals)
+	if err != nil {
+		res.Skip = "newvalueset"
+		return res
+	}
+	in, _ := am.NewValueSet([]am.Value{{Name: "x", Type: types[0]}})
+	cbErr := errors.New("callback failure")
+	failing := false
+	built, err := am.BuildFunc(in, out, func(in, out *am.ValueSet) error {
+		for i, v := range out.Values() {
+			if setMask&(1<<uint(i)) == 0 {
+				continue
+			}
+			p := out.TypedSubtype(v.Type, v.Subtype)
+			if v.Name != "" {
+				p = out.Named(v.Name)
+			}
+			if i < len(outL) {
+				p.Value = mk(outL[i].Type, int64(100+i))
+			} else {
+				p.Value = reflect.ValueOf(&concErr{})
+			}
+		}
+		if failing {
+			return cbErr
+		}
+		return nil
+	})
+	if err != nil {
+		res.violate("C15", "buildfunc-rejected", "BuildFunc rejected well-formed value sets: "+err.Error(), det)
+		return res
+	}
+	// (b) misses
+	if out.Named("nobody") != nil || out.Typed(types[0]) != nil || out.TypedSubtype(types[0], "") != nil || out.TypedSubtype(types[3], "zz") != nil {
+		res.violate("C15", "lookup-of-absent-value", "a lookup of a name, type or type/subtype the set does not hold returned a value", det)
+	}
+	res.Evals++
+	// (a) first call, directly (one case in two) or through a consumer
+	viaConsumer := r.Intn(2) == 0
+	det["via_consumer"] = viaConsumer
+	check := func(i int, got reflect.Value, where string) {
+		set := setMask&(1<<uint(i)) != 0
+		if i >= len(outL) {
+			if set == (got.IsValid() && !got.IsNil()) {
+				return
+			}
+			res.violate("C15", "partial-outputs", fmt.Sprintf("%s: interface-typed output %d set=%v but delivered nil=%v", where, i, set, !got.IsValid() || got.IsNil()), det)
+			return
+		}
+		id, _ := idOf(got)
+		want := int64(0)
+		if set {
+			want = int64(100 + i)
+		}
+		if id != want {
+			res.violate("C15", "partial-outputs", fmt.Sprintf("%s: output %d (%v) carries #%d, want #%d (set by the callback: %v)", where, i, outL[i], id, want, set), det)
+		}
+		res.obs("partial_outputs_checked", 1)
+	}
+	if !viaConsumer {
+		rr := built.Call(am.Named("x", T0{ID: 1}))
+		res.Evals++
+		if rr.Err() != nil {
+			res.violate("C15", "built-call-failed", "first call of a built function failed: "+firstLine(errStr(rr.Err())), det)
+			return res
+		}
+		got, _ := am.NewValueSet(vals)
+		if err := got.FromResult(rr); err != nil {
+			res.violate("C15", "fromresult-error", err.Error(), det)
+			return res
+		}
+		for i, v := range got.Values() {
+			check(i, v.Value, "caller")
+		}
+	} else {
+		// the consumer asks for every output
+		seen := map[int]reflect.Value{}
+		sf := []reflect.StructField{{Name: "Struct", Type: structMarkerT, Anonymous: true}}
+		for i, v := range vals {
+			tag := v.Name
+			if v.Name == "" {
+				tag = ",typeOnly"
+			}
+			if v.Subtype != "" {
+				tag += ",subtype=" + v.Subtype
+			}
+			sf = append(sf, reflect.StructField{Name: fmt.Sprintf("F%d", i), Type: v.Type, Tag: reflect.StructTag(`argmapper:"` + tag + `"`)})
+		}
+		st := reflect.StructOf(sf)
+		cons := reflect.MakeFunc(reflect.FuncOf([]reflect.Type{st}, nil, false), func(a []reflect.Value) []reflect.Value {
+			for i := range vals {
+				seen[i] = a[0].Field(i + 1)
+			}
+			return nil
+		})
+		cf, err := am.NewFunc(cons.Interface())
+		if err != nil {
+			res.Skip = "consumer"
+			return res
+		}
+		rr := cf.Call(am.Named("x", T0{ID: 1}), am.ConverterFunc(built))
+		res.Evals++
+		if rr.Err() != nil {
+			res.violate("C15", "built-call-failed", "a consumer of the built function's outputs failed: "+firstLine(errStr(rr.Err())), det)
+			return res
+		}
+		for i := range vals {
+			check(i, seen[i], "consumer")
+		}
+	}
+	// (c) an error result: FromResult hands the error on and keeps the set
+	failing = true
+	rr := built.Call(am.Named("x", T0{ID: 2}))
+	res.Evals++
+	keep, _ := am.NewValueSet(vals)
+	before := int64(900)
+	if p := keep.Named("a"); p != nil {
+		p.Value = mk(3, before)
+	}
+	if err := keep.FromResult(rr); err != cbErr {
+		res.violate("C15", "fromresult-error", fmt.Sprintf("FromResult of a result carrying the callback's error returned %v", err), det)
+	}
+	if p := keep.Named("a"); p != nil {
+		if id, _ := idOf(p.Value); id != before {
+			res.violate("C15", "fromresult-error", fmt.Sprintf("FromResult of an error result changed a value of the set (#%d -> #%d)", before, id), det)
+		}
+	}
+	res.obs("error_results_loaded", 1)
+	res.Sample = det
+	return res
+}
+
 // runC15ArgSnapshot: Value.Arg() taken from a set's live value carries the
 // value the set held at that moment; changing the set afterwards (direct
 // assignment, FromSignature, a later call of a built function over the set)
